@@ -61,6 +61,8 @@ impl Violation {
 pub struct Report {
     pub evaluations: u64,
     pub nontrivial: HashSet<u64>,
+    /// cases that are distinct by construction (exhaustive enumerations), counted not hashed
+    pub nontrivial_counted: u64,
     pub counters: BTreeMap<String, u64>,
     pub samples: Vec<Value>,
     pub violations: BTreeMap<String, Violation>,
@@ -75,6 +77,7 @@ impl Report {
     pub fn merge(&mut self, o: Report) {
         self.evaluations += o.evaluations;
         self.nontrivial.extend(o.nontrivial);
+        self.nontrivial_counted += o.nontrivial_counted;
         for (k, v) in o.counters {
             *self.counters.entry(k).or_insert(0) += v;
         }
